@@ -74,8 +74,10 @@ def make_interface(net):
     return Interface(sim)
 
 
-def run_impl(net, itf, X, T, mapping):
-    """X: list of N rows of T floats.  mapping: list of (station index, [rates]).  Returns outputs for both modes."""
+def run_impl(net, itf, X, T, mapping, ovt=None, ort=None):
+    """X: list of N rows of T floats.  mapping: list of (station index, [rates]).  ovt/ort: explicit
+    tolerance arguments given to the network / interface calls (None = use the network's).
+    Returns outputs for both modes."""
     import numpy as np
     from acnportal.algorithms.utils import infrastructure_constraints_feasible as icf
     from acnportal.acnsim.interface import InvalidScheduleError
@@ -90,22 +92,36 @@ def run_impl(net, itf, X, T, mapping):
         out["info_error"] = type(e).__name__
     out["info_shape"] = shape
     load = {("S%d" % i if i < n else "ZZ%d" % i): list(r) for i, r in mapping}
+    def guarded(o, key, f, default):
+        """an implementation call that raises something unexpected is recorded, never propagated"""
+        try:
+            o[key] = f()
+        except InvalidScheduleError:
+            raise
+        except Exception as e:  # noqa
+            o[key] = default
+            o.setdefault("raised", []).append("%s: %s" % (key, type(e).__name__))
+
     for lin in (False, True):
         o = {}
-        o["net"] = bool(net.is_feasible(Xa, linear=lin))
+        guarded(o, "net", lambda: bool(net.is_feasible(Xa, linear=lin, violation_tolerance=ovt, relative_tolerance=ort)), False)
         try:
-            o["iface"] = bool(itf.is_feasible(load, linear=lin))
+            guarded(o, "iface", lambda: bool(itf.is_feasible(load, linear=lin, violation_tolerance=ovt,
+                                                             relative_tolerance=ort)), False)
         except InvalidScheduleError:
             o["iface"] = None
         if info is not None:
-            o["alg_same"] = bool(icf(Xa, info, linear=lin, violation_tolerance=net.violation_tolerance,
-                                     relative_tolerance=net.relative_tolerance))
-            o["alg_default"] = bool(icf(Xa, info, linear=lin))
+            guarded(o, "alg_same", lambda: bool(icf(Xa, info, linear=lin,
+                                                    violation_tolerance=net.violation_tolerance if ovt is None else ovt,
+                                                    relative_tolerance=net.relative_tolerance if ort is None else ort)), False)
+            guarded(o, "alg_default", lambda: bool(icf(Xa, info, linear=lin)), False)
         else:
             o["alg_same"] = o["alg_default"] = None
         if len(net.magnitudes):
-            cur = net.constraint_current(Xa, linear=lin)
-            o["cur"] = [[[float(z.real), float(z.imag)] for z in row] for row in cur]
+            def cur_f():
+                cur = net.constraint_current(Xa, linear=lin)
+                return [[[float(z.real), float(z.imag)] for z in row] for row in cur]
+            guarded(o, "cur", cur_f, [])
         else:
             o["cur"] = []
         out["lin" if lin else "pha"] = o
@@ -304,22 +320,24 @@ def net_coq(A, L, cis, vt, rt):
         mat, coq_list([q(x) for x in L]), coq_list(["(%s, %s)" % (q(c), q(s)) for c, s in cis]), q(vt), q(rt))
 
 
-def case_coq(netc, T, X, mapping, lin, o, shape):
-    return ("{| c_net := %s; c_T := %d%%nat; c_X := %s; c_map := %s; c_linear := %s;\n"
+def case_coq(netc, T, X, mapping, lin, o, shape, ovt=None, ort=None):
+    return ("{| c_net := %s; c_T := %d%%nat; c_X := %s; c_map := %s; c_linear := %s; c_ovt := %s; c_ort := %s;\n"
             "   i_net := %s; i_iface := %s; i_alg_same := %s; i_alg_default := %s; i_cur := %s; i_info_shape := %s |}") % (
         netc, T, coq_list([coq_list([q(v) for v in r]) for r in X]),
         coq_list(["(%d%%nat, %s)" % (i, coq_list([q(v) for v in r])) for i, r in mapping]),
-        coq_bool(lin), coq_bool(o["net"]), coq_opt(o["iface"], coq_bool),
+        coq_bool(lin), coq_opt(ovt, q), coq_opt(ort, q), coq_bool(o["net"]), coq_opt(o["iface"], coq_bool),
         coq_bool(bool(o["alg_same"])), coq_bool(bool(o["alg_default"])),
         coq_list([coq_list(["(%s, %s)" % (q(z[0]), q(z[1])) for z in row]) for row in o["cur"]]),
         "None" if shape is None else "(Some (%d%%nat, %d%%nat))" % tuple(shape))
 
 
-def finish_cases(spec, A, L, phases, cis, X, T, mapping, mkind, colkinds, impl, exact_tie=False):
+def finish_cases(spec, A, L, phases, cis, X, T, mapping, mkind, colkinds, impl, exact_tie=False, ovt=None, ort=None):
     """two case dicts (linear False / True) for one schedule"""
-    vt, rt = spec["vt"], spec["rt"]
+    netc = net_coq(A, L, cis, spec["vt"], spec["rt"])
+    # effective tolerances of the network / interface / explicit algorithm-side calls
+    vt = spec["vt"] if ovt is None else ovt
+    rt = spec["rt"] if ort is None else ort
     rows = A or []
-    netc = net_coq(A, L, cis, vt, rt)
     out = []
     for lin in (False, True):
         key = "lin" if lin else "pha"
@@ -332,13 +350,14 @@ def finish_cases(spec, A, L, phases, cis, X, T, mapping, mkind, colkinds, impl, 
                 amb = True
         if robust(cur, L, 1e-5, 1e-7, signed=lin) is None:
             amb = True
-        inp = dict(A=A, L=L, phases=phases, vt=vt, rt=rt, X=X, T=T, mapping=[[i, r] for i, r in mapping], linear=lin,
-                   exact_tie=exact_tie)
-        c = dict(input=inp, impl=impl, coq=case_coq(netc, T, X, mapping, lin, o, impl["info_shape"]),
+        inp = dict(A=A, L=L, phases=phases, vt=spec["vt"], rt=spec["rt"], ovt=ovt, ort=ort, X=X, T=T,
+                   mapping=[[i, r] for i, r in mapping], linear=lin, exact_tie=exact_tie)
+        c = dict(input=inp, impl=impl, coq=case_coq(netc, T, X, mapping, lin, o, impl["info_shape"], ovt, ort),
                  ambiguous=amb, nontrivial=True,
-                 kind="%s/%s/%s/%s" % ("lin" if lin else "pha", "tie" if exact_tie else "+".join(sorted(set(colkinds))),
-                                       mkind, "deftol" if (vt, rt) == (1e-5, 1e-7) else "othertol"))
-        c["sig"] = [A, L, phases, vt, rt, X, inp["mapping"], lin]
+                 kind="%s/%s/%s/%s%s" % ("lin" if lin else "pha", "tie" if exact_tie else "+".join(sorted(set(colkinds))),
+                                         mkind, "deftol" if (vt, rt) == (1e-5, 1e-7) else "othertol",
+                                         "" if ovt is None and ort is None else "-explicit"))
+        c["sig"] = [A, L, phases, spec["vt"], spec["rt"], ovt, ort, X, inp["mapping"], lin]
         why = None if amb else monitor(c)
         if why and why.startswith("[" + SIG_TOL + "]"):
             c["sig"] = SIG_TOL
@@ -391,36 +410,68 @@ def gen_tie_cases(rng):
     return finish_cases(spec, A, L, ph, cis, X, T, mapping, "dense", ["tie-" + variant], impl, exact_tie=True)
 
 
+def crash_case(where, e):
+    """an unexpected exception of the implementation while building / running a case: reported through
+    the monitor (the case is kept out of the Coq run)"""
+    import traceback
+    return dict(input=dict(crash=where), impl=dict(crash="%s: %s" % (type(e).__name__, e), trace=traceback.format_exc()[-1500:]),
+                coq="", ambiguous=True, nontrivial=False, kind="crash", sig=["crash", where, type(e).__name__])
+
+
 def gen_cases(rng, n, tier):
     cases = []
+    crashes = 0
     while len(cases) < n:
+        try:
+            cases.extend(gen_block(rng))
+        except Exception as e:  # noqa
+            cases.append(crash_case("gen_block", e))
+            crashes += 1
+            if crashes > 20:
+                break
+    return cases[:n]
+
+
+def gen_block(rng):
+    cases = []
+    if True:
         if rng.random() < 0.25:
             for _ in range(3):
                 cases.extend(gen_tie_cases(rng))
-            continue
+            return cases
         spec = rand_network_spec(rng)
         net = build_network(spec["rows"], spec["limits"], spec["phases"], spec["vt"], spec["rt"], spec["partial"])
         itf = make_interface(net)
         A, L, ph = read_back(net)
         cis = cis_of(ph)
         for _ in range(rng.choice([3, 5, 8])):
-            T = rng.choice([1, 1, 2, 3, 4, 5, 6])
+            T = rng.choice([1, 1, 1, 2, 2, 3, 3, 4, 4, 5, 5, 6, 6, 0])
             X = rand_schedule(rng, len(ph), T)
-            X, colkinds = place(rng, A or [], L, cis, spec["vt"], spec["rt"], X, T, rng.random() < 0.35)
+            ovt = ort = None
+            if rng.random() < 0.2:
+                # explicit tolerance arguments to ChargingNetwork.is_feasible / Interface.is_feasible
+                ovt, ort = rng.choice([(1e-3, None), (None, 1e-4), (1e-9, 1e-12), (1e-5, 1e-7), (0.25, 0.0), (None, 1e-2)])
+            evt = spec["vt"] if ovt is None else ovt
+            ert = spec["rt"] if ort is None else ort
+            X, colkinds = place(rng, A or [], L, cis, evt, ert, X, T, rng.random() < 0.35)
             mapping, mkind = make_mapping(rng, X, T)
-            impl = run_impl(net, itf, X, T, mapping)
-            cases.extend(finish_cases(spec, A, L, ph, cis, X, T, mapping, mkind, colkinds, impl))
-    return cases[:n]
+            impl = run_impl(net, itf, X, T, mapping, ovt, ort)
+            cases.extend(finish_cases(spec, A, L, ph, cis, X, T, mapping, mkind, colkinds, impl, ovt=ovt, ort=ort))
+    return cases
 
 
 # ------------------------------------------------------------------------------------------
 # monitor: C06 stated directly on the implementation's outputs
 # ------------------------------------------------------------------------------------------
 def monitor(case):
+    if "crash" in case["input"]:
+        return "implementation raised %s" % case["impl"]["crash"]
     if case.get("ambiguous"):
         return None
     inp, impl = case["input"], case["impl"]
-    A, L, ph, vt, rt, X, T = inp["A"], inp["L"], inp["phases"], inp["vt"], inp["rt"], inp["X"], inp["T"]
+    A, L, ph, X, T = inp["A"], inp["L"], inp["phases"], inp["X"], inp["T"]
+    vt = inp["vt"] if inp.get("ovt") is None else inp["ovt"]
+    rt = inp["rt"] if inp.get("ort") is None else inp["ort"]
     rows = A or []
     cis = cis_of(ph)
     n = len(ph)
@@ -433,6 +484,9 @@ def monitor(case):
     want_lin_abs = decide(lin, L, vt, rt, 0) if tie else robust(lin, L, vt, rt)
     P, Ln = impl["pha"], impl["lin"]
     nonneg = all(v >= 0 for r in X for v in r)
+    for o in (P, Ln):
+        if o.get("raised"):
+            return "implementation raised %s" % ", ".join(o["raised"])
     # usable by schedulers: infrastructure_info is defined and has M x N shape
     if impl["info_shape"] is None:
         return "infrastructure_info() raised %s" % impl.get("info_error")
@@ -487,7 +541,7 @@ def monitor(case):
             wd = robust(cur, L, 1e-5, 1e-7, signed)
             ws = decide(cur, L, vt, rt, 0, signed) if tie else robust(cur, L, vt, rt, signed)
             if (vt, rt) != (1e-5, 1e-7) and wd is not None and ws is not None and wd != ws:
-                return "[%s] network tolerances (%g, %g): algorithm-side check with its hard-coded tolerances = %s, with the network's = %s (%s)" % (
+                return "[%s] effective network tolerances (%g, %g): algorithm-side check with its hard-coded tolerances = %s, with the network's = %s (%s)" % (
                     SIG_TOL, vt, rt, o["alg_default"], o["alg_same"], name)
             if wd is not None and ws is not None:
                 return "algorithm-side check: default-tolerance call %s, explicit-tolerance call %s (%s)" % (
@@ -512,11 +566,17 @@ def rerun(inp):
     net = build_network(A or [], L, ph, inp["vt"], inp["rt"])
     itf = make_interface(net)
     mapping = [(int(i), r) for i, r in inp["mapping"]]
-    return run_impl(net, itf, inp["X"], inp["T"], mapping)
+    return run_impl(net, itf, inp["X"], inp["T"], mapping, inp.get("ovt"), inp.get("ort"))
 
 
 def replay(w):
     inp = w["case"]
+    if "crash" in inp:
+        try:
+            gen_cases(__import__("random").Random(0), 60, "quick")
+        except Exception as e:  # noqa
+            return "implementation raised %s" % type(e).__name__
+        return None
     impl = rerun(inp)
     return monitor(dict(input=inp, impl=impl))
 
